@@ -3,6 +3,7 @@ package engines
 import (
 	"context"
 	"fmt"
+	"strconv"
 	"sync"
 	"time"
 
@@ -312,5 +313,84 @@ func filterFamily() []*kit.Term {
 		kit.TFN("ns-is-n0", isN0), // extensionally equal to member 4, not comparable
 		kit.TLSel(&metav1.LabelSelector{MatchExpressions: []metav1.LabelSelectorRequirement{{Key: "l", Operator: metav1.LabelSelectorOpNotIn, Values: []string{"x"}}}}),
 		kit.TLabels(map[string]string{"l": "x"}), // rebuilt-equal to member 2
+	}
+}
+
+// rootRig is a controller without lister/watcher (VerifNewRoot): the engine is
+// the only producer, so the published sequence is exactly what it sends.
+type rootRig struct {
+	core   *kit.Core
+	log    logutil.Log
+	root   *kcache.VerifRoot
+	ctx    context.Context
+	cancel context.CancelFunc
+	F      *kit.Term
+	nextRV int
+	sent   []evrec // events handed to Send, in order
+	sentMu sync.Mutex
+}
+
+func newRootRig(core *kit.Core, F *kit.Term) *rootRig {
+	var log logutil.Log = kit.NullLog{Yield: true}
+	if core != nil {
+		log = kit.NewLog(core)
+	}
+	if F == nil {
+		F = kit.TNull()
+	}
+	ctx, cancel := context.WithCancel(context.Background())
+	return &rootRig{core: core, log: log, root: kcache.VerifNewRoot(ctx, log, F.Build()), ctx: ctx, cancel: cancel, F: F, nextRV: 1}
+}
+
+func (g *rootRig) barrier() { g.core.Barrier() }
+
+func (g *rootRig) sentCount() int {
+	g.sentMu.Lock()
+	defer g.sentMu.Unlock()
+	return len(g.sent)
+}
+
+// apply feeds one wire event through the cache and publishes the resulting
+// events, exactly as controller.run does.  It returns the published events.
+func (g *rootRig) apply(typ kcache.EventType, o metav1.Object) ([]kcache.Event, error) {
+	evts, err := g.root.Cache().Update(kcache.NewEvent(typ, o))
+	if err != nil {
+		return nil, err
+	}
+	for _, e := range evts {
+		g.sentMu.Lock()
+		g.sent = append(g.sent, evrec{e.Type(), kit.Key(e.Resource()), e.Resource().GetResourceVersion(), e.Resource(), time.Now()})
+		g.sentMu.Unlock()
+		if err := g.root.Send(e); err != nil {
+			return evts, err
+		}
+	}
+	return evts, nil
+}
+
+// mutate applies a random put/delete with a fresh unique version.
+func (g *rootRig) mutate(rng *kit.Rng, u universe) ([]kcache.Event, error) {
+	ns := u.nss[rng.Intn(len(u.nss))]
+	name := u.names[rng.Intn(len(u.names))]
+	rv := strconv.Itoa(g.nextRV)
+	g.nextRV++
+	cur, _ := g.root.Cache().Get(ns, name)
+	if cur != nil && rng.Chance(25) {
+		return g.apply(kcache.EventTypeDelete, kit.Pod(ns, name, rv, cur.GetLabels()))
+	}
+	return g.apply(kcache.EventTypeUpdate, kit.Pod(ns, name, rv, u.labels[rng.Intn(len(u.labels))]))
+}
+
+// stop shuts the root down and reports hangs/leaks under prop.
+func (g *rootRig) stop(r *Res, prop string) {
+	g.root.Stop()
+	g.cancel()
+	if !waitCh(g.root.Publisher().Done(), virtBound) {
+		r.V(prop, "close-hang", "root publisher not done %v after its parent was stopped\n%s", virtBound, kit.CensusText(kit.Census(), 12))
+		return
+	}
+	g.barrier()
+	if gs := kit.Census(); len(gs) > 0 {
+		r.V(prop, "goroutine-leak", "%d library goroutine(s) remain after the root was stopped: %v\n%s", len(gs), kit.CensusKeys(gs), kit.CensusText(gs, 6))
 	}
 }
